@@ -78,7 +78,21 @@ def scenario(sim):
     link = Link(sim, latency=(lat, lat))
     plog = []
     sim.p_preempt = 0.0
-    p = ssh.Pair(sim, link=link, plog=plog)
+    # one run in four: one side never sends EOF (RFC 4254 5.3 allows closing without it), so the other side's
+    # eof_received stays clear when the channel is closed; and small windows, so that a few unread kilobytes are
+    # already more than the window-adjust threshold
+    kw = {}
+    sim.no_eof_side = (None, None, None, "c", "s")[sim.choose(5)]
+    if sim.no_eof_side:
+        def drop_eof(pk, payload):
+            if payload[0] == 96:
+                sim.fault("peer_closes_without_eof")
+                return []
+            return [payload]
+        kw["client_pk" if sim.no_eof_side == "c" else "server_pk"] = ssh.byzantine_packetizer(sim.no_eof_side, plog, mutate_out=drop_eof)
+        small = {"default_window_size": 32768}
+        kw["client_kw"], kw["server_kw"] = small, small
+    p = ssh.Pair(sim, link=link, plog=plog, **kw)
     p.start(timeout=60); p.wait_server(); p.auth_password()
     sim.p_preempt = pp
     descs = []
@@ -187,12 +201,15 @@ def episode(sim, p, link, plog, ep):
         mark2 = sim.seq
         for side, chan in (("c", ch), ("s", sch)):
             for name, fn in (("send", lambda c=chan: c.send(b"late")), ("send_stderr", lambda c=chan: c.send_stderr(b"late")),
-                             ("shutdown_write", lambda c=chan: c.shutdown_write()), ("close", lambda c=chan: c.close())):
+                             ("shutdown_write", lambda c=chan: c.shutdown_write()), ("close", lambda c=chan: c.close()),
+                             # what was buffered before the close stays readable: draining it must not send anything
+                             ("recv", lambda c=chan: (c.settimeout(0.0), c.recv(1 << 21))),
+                             ("recv_stderr", lambda c=chan: (c.settimeout(0.0), c.recv_stderr(1 << 21)))):
                 try:
                     r = fn()
                     if name.startswith("send") and r:
                         raise Violation(("C22", "send-succeeds-on-released-channel", name), "%s returned %r on a closed channel" % (name, r), desc)
-                except (socket.error, SSHException, EOFError):
+                except (socket.error, socket.timeout, SSHException, EOFError):
                     pass
         ssh.quiesce(sim, [link], (), settle=0.2, limit=5)
         late = [e for e in plog if e[0] > mark2 and e[3] == "tx" and 93 <= e[4] <= 100 and chan_of(e[5]) == ids[e[2]]]
